@@ -784,6 +784,14 @@ def check_classlayer(p, stats=None):
                     ss.mpe(name, sel_freq=[0.2 * fs_h], DF=3 * fs_h / spec["nxseg"])
                 except Exception as e:  # noqa: BLE001
                     out.append(("class-mpe-raises", f"FDD.mpe raised {type(e).__name__}: {str(e)[:80]}", None, None))
+        elif op == "setparams":  # the run parameters REPLACED through the public set_run_params: the next run is the run of these
+            name, new = step[1], step[2]
+            spec, alg = algs[name]
+            spec.update(new)
+            from pyoma2.algorithms.data.run_params import FDDRunParams, pLSCFRunParams
+            kw = dict(nxseg=spec["nxseg"], method_SD=spec["method"], pov=spec["pov"])
+            # values equal to the class defaults are passed too, as a user would who wants to go back to them
+            alg.set_run_params(pLSCFRunParams(ordmax=spec["ordmax"], **kw) if spec["cls"] == "pLSCF" else FDDRunParams(**kw))
         elif op == "recheck":  # results of objects that were not touched must not have changed either
             for name in step[1]:
                 verify("re-read later in the session", name)
@@ -847,7 +855,8 @@ def _gen_classlayer(ctx, seed):
     fs2 = rng.choice([f for f in fss if f != fs1])
     q = rng.choice([2, 3, 4, 5])
     N = lambda n, k=1: k * max(a["nxseg"], b["nxseg"]) * rng.randint(6, 12) + rng.randint(0, 50)  # noqa: E731
-    scen = rng.choice(["decimate-readd", "second-setup", "run-twice", "two-objects", "decimate-not-readd", "decimate-twice", "run-mpe-run"])
+    scen = rng.choice(["decimate-readd", "second-setup", "run-twice", "two-objects", "decimate-not-readd", "decimate-twice", "run-mpe-run",
+                       "set-params", "set-params"])
     if scen == "decimate-readd":
         steps = [["setup", fs1, N(0, q), amp], ["add", ["A", "B"]], ["run", ["A"]], ["decimate", q], ["add", ["A"]], ["run", ["A"]],
                  ["add", ["B"]], ["run", ["B"]], ["recheck", ["A"]]]
@@ -859,6 +868,14 @@ def _gen_classlayer(ctx, seed):
     elif scen == "two-objects":
         steps = [["setup", fs1, N(0), amp], ["add", ["A"]], ["run", ["A"]], ["setup", fs2, N(0), amp], ["add", ["B"]], ["run", ["B"]],
                  ["recheck", ["A", "B"]]]
+    elif scen == "set-params":
+        # run with non-default spectral parameters, replace them (half of the time by the CLASS DEFAULTS nxseg 1024 / 'per' / 0.5,
+        # written out), run again: the second result is the result of the parameters in force at the second run
+        a["method"], a["pov"], a["nxseg"] = "cor", 0.5, rng.choice([64, 128, 100])
+        if rng.random() < 0.5:
+            a["method"], a["pov"] = "per", rng.choice([0.25, 0.75])
+        new = {"nxseg": 1024, "method": "per", "pov": 0.5} if rng.random() < 0.5 else {"nxseg": rng.choice([32, 256, 48]), "method": rng.choice(["per", "cor"]), "pov": 0.5}
+        steps = [["setup", fs1, max(N(0), 1024 * 6 + rng.randint(0, 50)), amp], ["add", ["A"]], ["run", ["A"]], ["setparams", "A", new], ["run", ["A"]]]
     elif scen == "run-mpe-run":  # run, extract, run again (e.g. run_all after a second algorithm was added)
         a["cls"] = "FDD"
         steps = [["setup", fs1, N(0), amp], ["add", ["A"]], ["run", ["A"]], ["mpe", ["A"]], ["add", ["B"]], ["run_all"], ["recheck", ["A"]]]
